@@ -372,6 +372,78 @@ def r5_pool_independence(rule, root=None):
         rule.bad("pool|check_done", "Octree::check_done returns `%s` early: a collapsible group must collapse whether or not it is the last entry of `cells` (only the pooled build has groups in the middle)" % (A.unparse(bad[0].get("e") or {})[:40] if bad else "?"), A.where(cd, bad[0] if bad else None))
 
 
+POOL_SITES = {
+    ("fidget-raster/src/lib.rs", "render_tiles"): "the tile fan-out: pooled and serial map over the same tile list, results collected in list order",
+    ("fidget-raster/src/lib.rs", "apply_effect"): "per-row image effects (R3b compares the pooled and the serial chunking)",
+    ("fidget-mesh/src/octree.rs", "build_inner"): "dispatch to the pooled builder",
+    ("fidget-mesh/src/octree.rs", "build_inner_mt"): "the pooled octree build (R4 / R5 check its merge)",
+}
+_POOL_USE = re.compile(r"thread_count\(|\.run\(\|\||par_iter\(|into_par_iter\(|par_chunks|par_bridge\(|par_sort|rayon::(?:join|scope|spawn)|current_num_threads\(")
+_POOL_TEST = re.compile(r"(?:iflet|match|let)Some\(\w+\)=[\w.]*threads\b(?:\(\))?|[\w.]*threads(?:\(\))?\.(?:is_some|is_none|map|map_or|and_then)\(|match[\w.]*threads(?:\(\))?\{")
+
+
+def r_pool_sites(rule, root=None):
+    """who may consult the pool: only the vetted fan-out sites run work on it, ask how many threads it has, or branch
+    on whether there is one.  Everything else - in particular the code that assembles the image / mesh from the
+    per-tile / per-cell results - is the same code with and without a pool, so it cannot make the result depend on
+    the schedule.  Passing the pool along (an argument, a struct field) is not consulting it."""
+    import glob as _glob
+    import os as _os
+
+    base = root or A.REPO
+    seen = set()
+    for crate in ("fidget-raster", "fidget-mesh"):
+        for full in sorted(_glob.glob(_os.path.join(base, crate, "src", "*.rs"))):
+            path = _os.path.relpath(full, base)
+            if path.endswith("effects.rs"):
+                continue  # screen-space effects, outside the properties' scope
+            d = A.load(path, root)
+            for f in d["_fns"]:
+                if f["_test"] or f.get("body") is None:
+                    continue
+                t = str(txt(f["body"]))
+                m = _POOL_USE.search(t) or _POOL_TEST.search(t)
+                if not m:
+                    continue
+                key = (path, f["name"])
+                if key in POOL_SITES:
+                    seen.add(key)
+                    rule.ok("%s %s consults the pool: %s" % (path, f["name"], POOL_SITES[key]), file=path, line=f["ln"])
+                else:
+                    rule.bad("pool|site|%s|%s" % (path.split("/")[-1], f["name"]), "%s `%s` consults the thread pool (`%s`): only the vetted fan-out sites may, because code that behaves differently with a pool - a second way of assembling the result, a chunk size taken from the thread count - makes the output depend on the configuration or the schedule" % (path, A.fn_label(f), m.group(0)[:40]), A.where(path, f))
+    for key in POOL_SITES:
+        if key not in seen:
+            rule.skip("%s %s" % key, "vetted pool site no longer consults the pool")
+
+
+def r_mirror_flag_writers(rule, root=None):
+    """the winding flag belongs to the finished octree: it is written in `Octree::build`, after the serial and the
+    pooled path have joined, and nowhere else - a copy made by one path only (or merged from per-task octrees) is
+    lost or schedule-dependent on the other"""
+    d = A.load(OCT, root)
+    writers = []
+    for f in d["_fns"]:
+        if f["_test"] or f.get("body") is None:
+            continue
+        for a in A.find(f["body"], "Assign"):
+            if str(txt(a["left"])).endswith(".mirrored"):
+                writers.append((f, a))
+        for st in A.find(f["body"], "Struct"):
+            if (A.path_segs(st.get("path")) or [None])[-1] in ("Octree", "Self") and any(x["name"] == "mirrored" for x in st.get("fields", [])):
+                ow = (f.get("_owner") or {}).get("self_ty")
+                if not (ow == "Octree" and f["name"] == "new"):
+                    writers.append((f, st))
+    if not writers:
+        rule.skip("Octree::mirrored", "no writer found (C08.R6 reports a missing orientation flag)", count=True)
+        return
+    bad = [(f, n) for f, n in writers if not ((f.get("_owner") or {}).get("self_ty") == "Octree" and f["name"] == "build")]
+    if bad:
+        f, n = bad[0]
+        rule.bad("mirror|writer|%s" % f["name"], "`mirrored` is written in %s; it must be set once on the octree `Octree::build` returns, after the serial and pooled paths have joined (a flag carried by a builder or merged from per-task octrees differs between the two paths or between schedules)" % A.fn_label(f), A.where(OCT, n))
+    else:
+        rule.ok("the winding flag is written only in Octree::build, on the octree both paths return", file=OCT, line=writers[0][1]["ln"])
+
+
 def run(ctx):
     r = ctx.rule("R1", "an abort originates only from the cancel token (or a child's abort) and turns the whole result into None", 16)
     ctx.guarded(r, r1_cancellation)
@@ -381,6 +453,9 @@ def run(ctx):
     ctx.guarded(r, r_token_consumers)
     r = ctx.rule("R3c", "nothing derived from the thread pool reaches the tiling parameters", 2)
     ctx.guarded(r, r_pool_free_parameters)
+    r = ctx.rule("R3d", "only the vetted fan-out sites consult the pool (run work on it, ask its size, branch on its presence); result assembly is the same code with and without one; the winding flag is written where both meshing paths have joined", 4 + 1)
+    ctx.guarded(r, r_pool_sites)
+    ctx.guarded(r, r_mirror_flag_writers)
     r = ctx.rule("R1c", "the pooled meshing path is reached only with inputs for which every task has a parent slot", 1)
     ctx.guarded(r, r1c_mt_precondition)
     r = ctx.rule("R2", "shared-state inventory: vetted unsafe Send/Sync, only the cancel flag is interiorly mutable, JIT handles immutable", 14)
